@@ -41,6 +41,9 @@ pub enum Shape {
     /// (A_t loses c_t to the cheap phases and goes to the cycle-free search), then `m_extra` pseudo-random rows with
     /// 1..per_row entries from `seed`, on n = 3 groups + n_extra columns
     Huge { groups: u16, m_extra: u16, n_extra: u16, per_row: u8, seed: u32 },
+    /// a long bidiagonal chain r_k = e_k + e_(k+1), k = 1..N (N up to 7000: every pivot is reachable from the first), plus rows
+    /// x = (non-candidate) e_0 + e_a + e_b that close a cycle through the chain if both of their candidates were taken
+    Chain { n: u16, closers: Vec<(u16, u16)> },
 }
 
 #[derive(Clone, Debug, Serialize, Deserialize)]
@@ -112,6 +115,19 @@ pub(crate) fn build_entries(c: &Case, tier: Tier) -> (usize, usize, Entries) {
             for (i, j, v) in extra { put(&mut e, h + (*i as usize % l), *j as usize % n, value(c.rty, *v)); }
             for (i, j, v) in cross { put(&mut e, *i as usize % m, h + 1 + (*j as usize % l), value(c.rty, *v)); }
             (m, n, e)
+        }
+        Shape::Chain { n, closers } => {
+            let nn = 1 + (*n as usize % 7000);
+            let non_cand = match c.rty { RTy::I64 => V::I(2), RTy::Q => V::Q(1, 1), RTy::F3 => V::F(1), RTy::PolyH => V::P(vec![0, 1]) };
+            for k in 1..=nn { put(&mut e, k - 1, k, value(c.rty, 0)); put(&mut e, k - 1, k + 1, value(c.rty, 1)); }
+            let cl: Vec<&(u16, u16)> = closers.iter().take(4).collect();
+            for (t, (a, b)) in cl.iter().enumerate() {
+                // a: a column near the start of the chain (or anywhere, for odd a); b: the free last column nn+1 (b odd) or any column
+                let a = if *a % 2 == 0 { 1 + (*a as usize / 2) % 64.min(nn) } else { 1 + *a as usize % (nn + 1) };
+                let b = if *b % 2 == 1 { nn + 1 } else { 1 + *b as usize % (nn + 1) };
+                put(&mut e, nn + t, 0, non_cand.clone()); put(&mut e, nn + t, a, value(c.rty, 0)); if b != a { put(&mut e, nn + t, b, value(c.rty, 1)); }
+            }
+            (nn + cl.len(), nn + 2, e)
         }
         Shape::Huge { groups, m_extra, n_extra, per_row, seed } => {
             let k = *groups as usize % 1500;
@@ -250,7 +266,7 @@ fn check(c: &Case, m: usize, n: usize, e: &Entries, run: &Run) -> Chk<Pass> {
     Ok(Pass::new().nt(run.par_commits >= 2 && run.retries >= 1)
         .label(format!("sched:{}", match c.sched { Sched::Free => "free", Sched::Barrier(_) => "barrier", Sched::Delay(..) => "delay", Sched::Stagger => "stagger" }))
         .label(format!("ring:{:?}", c.rty)).label_if(run.retries >= 1, "retry>=1").label_if(run.par_commits >= 2, "parallel-commits>=2")
-        .label_if(matches!(c.shape, Shape::Ring { .. }), "conflict-rich").label_if(matches!(c.shape, Shape::Huge { .. }), "huge-sparse").label_if(n >= 4096 || m >= 4096, "dimension>=4096").label_if(pivs.is_empty(), "no-pivot"))
+        .label_if(matches!(c.shape, Shape::Ring { .. }), "conflict-rich").label_if(matches!(c.shape, Shape::Huge { .. }), "huge-sparse").label_if(matches!(c.shape, Shape::Chain { .. }), "long-chain").label_if(n >= 4096 || m >= 4096, "dimension>=4096").label_if(pivs.is_empty(), "no-pivot"))
 }
 
 fn run_case(c: &Case, tier: Tier) -> Chk<Pass> {
@@ -274,7 +290,7 @@ impl Prop for C11 {
     type Case = Case;
     const ID: &'static str = "C11";
     fn rule() -> String {
-        "case = (ring in {i64, Ratio<i64>, FF<3>, Poly<'H',i64>}, sparse matrix: random (m,n up to 60 (250 thorough), 0..400 entries from units and non-units) or conflict-rich (a staircase head plus L rows whose two candidate columns collide pairwise, plus noise) or, one case in 29, huge and very sparse (up to 3400 x 8200: independent 2 x 3 blocks whose second row reaches the cycle-free search, plus pseudo-random sparse rows), pivot type Rows/Cols, condition One/AnyUnit/Weight(w), threads in {1,2,3,4,8,16}, \
+        "case = (ring in {i64, Ratio<i64>, FF<3>, Poly<'H',i64>}, sparse matrix: random (m,n up to 60 (250 thorough), 0..400 entries from units and non-units) or conflict-rich (a staircase head plus L rows whose two candidate columns collide pairwise, plus noise) or, one case in 29, huge and very sparse (up to 3400 x 8200: independent 2 x 3 blocks whose second row reaches the cycle-free search, plus pseudo-random sparse rows; or a bidiagonal chain of up to 7000 rows with a few rows that would close a cycle through it), pivot type Rows/Cols, condition One/AnyUnit/Weight(w), threads in {1,2,3,4,8,16}, \
          schedule strategy installed through the verif-hooks points: Free, Barrier(g) (tasks wait before the write lock until g have arrived or 1.5 ms passed), Delay(seed, max us) (pseudo-random spin per (row, point, attempt)), Stagger (a task is held before the write lock until another task has committed since its snapshot)). \
          oracle: no panic; pivots have pairwise distinct rows and columns; every pivot entry satisfies the condition (reference predicates); reading the original entries through the pivot order, the leading r x r block is upper (Rows) / lower (Cols) triangular. \
          non-trivial = the parallel phase committed >= 2 pivots and at least one validate-or-retry round failed validation (counted through the hooks)".into()
@@ -290,7 +306,8 @@ impl Prop for C11 {
         let ring = (any::<u8>(), ents(40), ents(40), any::<u8>()).prop_map(|(l, extra, cross, head)| Shape::Ring { l, extra, cross, head });
         let sched = prop_oneof![2 => Just(Sched::Free), 4 => (2u8..=16).prop_map(Sched::Barrier), 2 => (any::<u32>(), 1u16..300).prop_map(|(s, m)| Sched::Delay(s, m)), 2 => Just(Sched::Stagger)];
         let cond = prop_oneof![3 => Just(Cond::One), 3 => Just(Cond::AnyUnit), 2 => (1u8..6).prop_map(Cond::Weight)];
-        (prop::sample::select(vec![RTy::I64, RTy::I64, RTy::Q, RTy::F3, RTy::PolyH]), prop_oneof![12 => random, 16 => ring, 1 => (any::<u16>(), any::<u16>(), any::<u16>(), any::<u8>(), any::<u32>()).prop_map(|(groups, m_extra, n_extra, per_row, seed)| Shape::Huge { groups, m_extra, n_extra, per_row, seed })], any::<bool>(), cond, prop_oneof![1 => Just(0u8), 1 => Just(1u8), 2 => Just(3u8), 3 => Just(4u8), 3 => Just(5u8)], sched)
+        (prop::sample::select(vec![RTy::I64, RTy::I64, RTy::Q, RTy::F3, RTy::PolyH]), prop_oneof![24 => random, 32 => ring, 2 => (any::<u16>(), any::<u16>(), any::<u16>(), any::<u8>(), any::<u32>()).prop_map(|(groups, m_extra, n_extra, per_row, seed)| Shape::Huge { groups, m_extra, n_extra, per_row, seed }),
+            1 => (prop_oneof![1 => any::<u16>(), 1 => 4000u16..7000], prop::collection::vec((any::<u16>(), prop_oneof![1 => any::<u16>(), 1 => Just(u16::MAX)]), 0..4)).prop_map(|(n, closers)| Shape::Chain { n, closers })], any::<bool>(), cond, prop_oneof![1 => Just(0u8), 1 => Just(1u8), 2 => Just(3u8), 3 => Just(4u8), 3 => Just(5u8)], sched)
             .prop_map(|(rty, shape, cols, cond, threads, sched)| Case { rty, shape, cols, cond, threads, sched }).boxed()
     }
     fn cases(tier: Tier) -> u32 { tier.pick(12_000, 100_000) }
